@@ -109,7 +109,7 @@ Inductive parse_error :=
 | ENestedTypeCoercion
 | ETypeCoercionWithSiblingFields
 | EUnsupportedDuplicatedDirective (dir : string)
-| EDuplicatedEdgeParameter (param edge : string)
+| EDuplicatedEdgeParam (param edge : string)
 | EVariableDefinitionInQuery
 | EOtherError (msg : string).
 (* not produced by parse_document: InvalidGraphQL (the third-party parser's own error) *)
@@ -482,7 +482,7 @@ Fixpoint conn_arguments (fname : string) (args : qargs) (acc : list (string * fv
       | None => perr (EInvalidFieldArgument fname n)
       | Some x =>
           match amap_insert_new n x acc with
-          | None => perr (EDuplicatedEdgeParameter n fname)
+          | None => perr (EDuplicatedEdgeParam n fname)
           | Some acc' => conn_arguments fname r acc'
           end
       end
@@ -752,7 +752,7 @@ Definition show_parse_error (e : parse_error) : string :=
   | ENestedTypeCoercion => "NestedTypeCoercion"
   | ETypeCoercionWithSiblingFields => "TypeCoercionWithSiblingFields"
   | EUnsupportedDuplicatedDirective d => "UnsupportedDuplicatedDirective " ++ hex d
-  | EDuplicatedEdgeParameter p e => "DuplicatedEdgeParameter " ++ hex p ++ " " ++ hex e
+  | EDuplicatedEdgeParam p e => "DuplicatedEdgeParam " ++ hex p ++ " " ++ hex e
   | EVariableDefinitionInQuery => "VariableDefinitionInQuery"
   | EOtherError m => "OtherError " ++ hex m
   end.
